@@ -46,6 +46,14 @@ PROPS = {
 }
 
 
+def _round8_note(prop):
+    try:
+        import notes_round8
+        return notes_round8.NOTES.get(prop, "")
+    except Exception:
+        return ""
+
+
 def run(prop, tier, seed, only_rule=None):
     t0 = time.time()
     if prop not in PROPS:
@@ -90,7 +98,7 @@ def run(prop, tier, seed, only_rule=None):
         reports.append(rep)
     return engine.finish(
         prop, tier, reports, t0,
-        explanation=explanation,
+        explanation=(explanation + " " + _round8_note(prop)).strip(),
         assumptions=COMMON_ASSUMPTIONS + list(extra_assumptions),
         trusted_base=TRUSTED,
         checker_cmd="./verif check %s --tier %s" % (prop, tier),
